@@ -9,3 +9,4 @@ INVARIANT TreeIffUnique
 INVARIANT TreeDepthIsDistance
 INVARIANT PrimIsMST
 INVARIANT GridIsLattice
+INVARIANT PredefShapes
